@@ -40,6 +40,10 @@ func genC19(g *Gen) {
 		d[g.r.Intn(len(d))] = 1 << uint(g.r.Intn(8))
 		g.addf("fragenc %d %d %s", size, 10, hx(d))
 	}
+	// large redundancy: from parity index 8380 on the PRBS23 seed 1 + 1001 N no longer fits 23 bits (TS004 allows a 14-bit index);
+	// one non-power-of-two and one power-of-two fragment count
+	g.addf("fragenc 1 8500 %s", hx(g.r.Bytes(12)))
+	g.addf("fragenc 1 8500 %s", hx(g.r.Bytes(8)))
 	// invalid sizes
 	for _, size := range []int{0, -1, -5, -1 << 31, 3, 7, 1000} {
 		for _, red := range []int{0, 1, 5, -1} {
